@@ -1,16 +1,26 @@
 /-
   Mxj.Lemmas.Seq — helper lemmas for C04 (Props/C04.lean), namespace `Mxj.SeqL`:
-  (1) `sortBySeq` is a permutation, sorted, and canonical on lists with distinct `#seq`;
-  (2) the streaming decoder `seqElem`/`seqTop` is monotone in fuel and, on the tokens of a
-      tree, computes `SeqFold.value`/`SeqFold.doc`;
-  (3) the normal form of the decoded value of an in-domain element (`SeqFold.value`):
-      `#attr` entry, text entries, then the grouped children — whose unrolled entries are a
-      permutation of the decorated children in document order (`items`), numbered consecutively;
-  (4) the tree-form encoder `seqEncTree` undoes the decoder on the domain.
+  (1)  `sortBySeq` is a permutation, sorted, and canonical on lists with distinct `#seq`;
+  (2)  the streaming decoder `seqElem`/`seqTop` is monotone in fuel and, on the tokens of a
+       tree, computes `SeqFold.value`/`SeqFold.doc`;
+  (3)  the normal form of the decoded value of an in-domain element (`entries_form`): `#attr`
+       entry, text entries, then the grouped children — whose unrolled entries are a permutation
+       of the decorated children in document order (`items`), numbered consecutively;
+  (4)  the tree-form encoder `seqEncTree` undoes the decoder on the domain (`enc_val`: the
+       encoder on the normal form; `enc_tree`/`enc_kids`: along the tree);
+  (5)-(6) the decoded form restated for Props; qualified names split again at the colon;
+  (7)-(8) one-level order independence (`seqEncTree_perm`, `seqEnc_perm`); decoded maps have
+       distinct keys and distinct sequence numbers;
+  (9)-(11) bytes = rendering of the tree with `goEmpty` (`seqEnc_link`); decoded values are in
+       the plain domain; the fuel `mapSeqXml` supplies is enough (`mapSeqXml_roundtrip`);
+  (12) children in place;
+  (13)-(14) order independence at every level (`VPerm`, `GoodAt`, `seqEncTree_vperm`); decoded
+       values are good at every level (`good_value`).
 -/
 import Mxj.Model.SeqTree
 import Mxj.Lemmas.Decode
 import Mxj.Lemmas.Leaf
+import Mxj.Lemmas.Escape
 namespace Mxj
 namespace SeqL
 open Mxj.Dec
@@ -1719,6 +1729,1317 @@ theorem decoded_keys_nodup (c : SeqCfg) (S : Strconv) (hc : CfgOk c) (sp name : 
   intro a ha b hb e
   subst e
   exact hG a (hAT.2 a ha) hb
+
+/-! ### (9) bytes = rendering of the tree (with `goEmpty`) -/
+
+theorem escapeChars_isEmpty' (s : Str) : (escapeChars s).isEmpty = s.isEmpty := by
+  cases s with
+  | nil => simp [escapeChars_nil]
+  | cons x xs =>
+    rw [escapeChars_cons]
+    have := escOne_length_pos x
+    cases h : escOne x with
+    | nil => rw [h] at this; simp at this
+    | cons _ _ => simp
+
+def escB (esc : Bool) (s : Str) : Str := if esc then escapeChars s else s
+
+theorem escB_isEmpty (esc : Bool) (s : Str) : (escB esc s).isEmpty = s.isEmpty := by
+  cases esc <;> simp [escB, escapeChars_isEmpty']
+
+theorem renderSeqKids_append (esc ge : Bool) : ∀ (a b : List Node),
+    renderSeqKids esc ge (a ++ b) = renderSeqKids esc ge a ++ renderSeqKids esc ge b
+  | [], b => rfl
+  | x :: a, b => by simp only [List.cons_append, renderSeqKids, renderSeqKids_append esc ge a b,
+      List.append_assoc]
+
+theorem renderSeqAttrs_cons (esc : Bool) (a : Attr) (as : List Attr) :
+    renderSeqAttrs esc (a :: as)
+      = " ".toList ++ a.name ++ "=\"".toList ++ escB esc a.value ++ "\"".toList
+          ++ renderSeqAttrs esc as := rfl
+
+/-- an entry allowed in the plain domain: a plain value, or a number (under the sequence key) -/
+def okVal (c : SeqCfg) (v : Val) : Bool := seqPlain c v || isNumVal v
+
+theorem plain_of_lookup (c : SeqCfg) (k : Str) (hk : k ≠ c.seqK) : ∀ (l : Entries) (v : Val),
+    seqPlainEntries c l = true → lookup k l = some v → seqPlain c v = true
+  | [], v, _, h => by simp [lookup] at h
+  | (k', v') :: rest, v, hp, h => by
+      simp only [seqPlainEntries, Bool.and_eq_true, Bool.or_eq_true, decide_eq_true_eq] at hp
+      by_cases e : k = k'
+      · subst e
+        simp only [lookup, if_true, Option.some.injEq] at h
+        subst h
+        rcases hp.1 with h1 | h1
+        · exact absurd h1.1 hk
+        · exact h1
+      · simp only [lookup, e, if_false] at h
+        exact plain_of_lookup c k hk rest v hp.2 h
+
+theorem okVal_of_mem (c : SeqCfg) : ∀ (l : Entries), seqPlainEntries c l = true →
+    ∀ e ∈ l, okVal c e.2 = true
+  | [], _, e, h => by simp at h
+  | (k', v') :: rest, hp, e, h => by
+      simp only [seqPlainEntries, Bool.and_eq_true, Bool.or_eq_true, decide_eq_true_eq] at hp
+      rcases List.mem_cons.1 h with rfl | h
+      · rcases hp.1 with h1 | h1
+        · simp [okVal, h1.2]
+        · simp [okVal, h1]
+      · exact okVal_of_mem c rest hp.2 e h
+
+theorem seqPlainList_mem (c : SeqCfg) : ∀ (xs : List Val), seqPlainList c xs = true →
+    ∀ x ∈ xs, seqPlain c x = true
+  | [], _, x, h => by simp at h
+  | y :: ys, hp, x, h => by
+      simp only [seqPlainList, Bool.and_eq_true] at hp
+      rcases List.mem_cons.1 h with rfl | h
+      · exact hp.1
+      · exact seqPlainList_mem c ys hp.2 x h
+
+theorem plain_unroll (c : SeqCfg) : ∀ (l : Entries), seqPlainEntries c l = true →
+    ∀ e ∈ unrollEntries c l, seqPlain c e.2 = true
+  | [], _, e, h => by simp [unrollEntries] at h
+  | (k, v) :: rest, hp, e, h => by
+      simp only [seqPlainEntries, Bool.and_eq_true, Bool.or_eq_true, decide_eq_true_eq] at hp
+      rw [unrollEntries_cons, List.mem_append] at h
+      rcases h with h | h
+      · by_cases hd : dropK c k = true
+        · simp [hd] at h
+        · simp only [hd, Bool.false_eq_true, if_false] at h
+          have hpv : seqPlain c v = true := by
+            rcases hp.1 with h1 | h1
+            · exfalso; apply hd; simp [dropK, h1.1]
+            · exact h1
+          cases v with
+          | list xs =>
+            simp only [unroll1, List.mem_map] at h
+            obtain ⟨x, hx, rfl⟩ := h
+            simp only [seqPlain] at hpv
+            exact seqPlainList_mem c xs hpv x hx
+          | null => simp [seqPlain] at hpv
+          | bool _ => simp [seqPlain] at hpv
+          | num _ => simp [seqPlain] at hpv
+          | str _ => simp only [unroll1, List.mem_singleton] at h; subst h; exact hpv
+          | map _ => simp only [unroll1, List.mem_singleton] at h; subst h; exact hpv
+      · exact plain_unroll c rest hp.2 e h
+
+theorem seqAttrText_link (c : SeqCfg) (esc : Bool) (hts : c.textK ≠ c.seqK) (k : Str) (v : Val)
+    (hv : okVal c v = true) :
+    seqAttrText c esc k v = (seqAttrNode c k v).mapOk (fun a => renderSeqAttrs esc [a]) := by
+  cases v with
+  | map vv =>
+    have hp : seqPlainEntries c vv = true := by simpa [okVal, seqPlain, isNumVal] using hv
+    cases h : lookup c.textK vv with
+    | none => simp [seqAttrText, seqAttrNode, h, Outcome.mapOk]
+    | some x =>
+      have hx := plain_of_lookup c c.textK hts vv x hp h
+      cases x with
+      | str s =>
+        cases esc <;>
+          simp [seqAttrText, seqAttrNode, h, Outcome.mapOk, renderSeqAttrs]
+      | list _ => simp [seqAttrText, seqAttrNode, h, Outcome.mapOk]
+      | map _ => simp [seqAttrText, seqAttrNode, h, Outcome.mapOk]
+      | null => simp [seqPlain] at hx
+      | bool _ => simp [seqPlain] at hx
+      | num _ => simp [seqPlain] at hx
+  | null => simp [seqAttrText, seqAttrNode, Outcome.mapOk]
+  | bool _ => simp [seqAttrText, seqAttrNode, Outcome.mapOk]
+  | num _ => simp [seqAttrText, seqAttrNode, Outcome.mapOk]
+  | str _ => simp [seqAttrText, seqAttrNode, Outcome.mapOk]
+  | list _ => simp [seqAttrText, seqAttrNode, Outcome.mapOk]
+
+theorem seqAttrsText_link (c : SeqCfg) (esc : Bool) (hts : c.textK ≠ c.seqK) :
+    ∀ (l : List (Str × Val)), (∀ e ∈ l, okVal c e.2 = true) →
+    seqAttrsText c esc l = (seqAttrNodes c l).mapOk (renderSeqAttrs esc)
+  | [], _ => by simp [seqAttrsText, seqAttrNodes, Outcome.mapOk, renderSeqAttrs]
+  | (k, v) :: rest, h => by
+      have h1 := seqAttrText_link c esc hts k v (h (k, v) (List.mem_cons_self ..))
+      have h2 := seqAttrsText_link c esc hts rest (fun e he => h e (List.mem_cons_of_mem _ he))
+      simp only [seqAttrsText, seqAttrNodes, h1, h2]
+      cases seqAttrNode c k v <;> cases seqAttrNodes c rest <;>
+        simp [Outcome.mapOk, renderSeqAttrs]
+
+/-- the text the encoder writes for the text-key value -/
+def txtOf (esc : Bool) (tv : Val) : Option Str :=
+  match tv with
+  | .str s => some (if esc then escapeChars s else s)
+  | v => fmtV v
+
+/-- `seqEnc` on a map after the attributes have been read -/
+def encBodyB (esc ge : Bool) (key atext : Str) (hv seqOK : Bool) (n : Nat) (ot : Option Val)
+    (ko : Outcome Str) : Outcome Str :=
+  match ot with
+  | some tv =>
+    if ((n = 3 && hv) || (n = 2 && !hv)) && seqOK then
+      match txtOf esc tv with
+      | some t => if t.isEmpty then .ok ("<".toList ++ key ++ atext ++
+                      (if ge then ">".toList ++ closeTag key else "/>".toList))
+                  else .ok ("<".toList ++ key ++ atext ++ ">".toList ++ t ++ closeTag key)
+      | none => .err .other
+    else
+      match txtOf esc tv, ko with
+      | some t, .ok kids => .ok ("<".toList ++ key ++ atext ++ ">".toList ++ t ++ kids ++ closeTag key)
+      | none, _ => .err .other
+      | _, o => o
+  | none =>
+    if ((n = 2 && hv) || (n = 1 && !hv)) && seqOK then
+      .ok ("<".toList ++ key ++ atext ++ (if ge then ">".toList ++ closeTag key else "/>".toList))
+    else match ko with
+      | .ok kids => .ok ("<".toList ++ key ++ atext ++ ">".toList ++ kids ++ closeTag key)
+      | o => o
+
+def attrsOutB (c : SeqCfg) (esc : Bool) (val : Entries) : Outcome (Str × Bool) :=
+  match lookup c.attrK val with
+  | some (.map av) => match seqAttrsText c esc (sortBySeq c av) with
+      | .ok a => .ok (a, true)
+      | .eof => .eof | .syntax => .syntax | .err k => .err k | .panic s => .panic s
+  | _ => .ok ([], false)
+
+def attrsOutT (c : SeqCfg) (val : Entries) : Outcome (List Attr × Bool) :=
+  match lookup c.attrK val with
+  | some (.map av) => match seqAttrNodes c (sortBySeq c av) with
+      | .ok a => .ok (a, true)
+      | .eof => .eof | .syntax => .syntax | .err k => .err k | .panic s => .panic s
+  | _ => .ok ([], false)
+
+theorem seqEnc_map_eq (c : SeqCfg) (esc ge : Bool) (f : Nat) (key : Str) (val : Entries)
+    (h1 : key ≠ c.commentK) (h2 : key ≠ c.directiveK) (h3 : key ≠ c.procinstK) :
+    seqEnc c esc ge (f + 1) key (.map val)
+      = match attrsOutB c esc val with
+        | .ok (atext, hv) => encBodyB esc ge key atext hv (lookup c.seqK val).isSome val.length
+            (lookup c.textK val) (seqKids c esc ge f (sortBySeq c (unrollEntries c val)))
+        | .eof => .eof | .syntax => .syntax | .err k => .err k | .panic s => .panic s := by
+  simp only [seqEnc, h1, h2, h3, if_false]
+  rfl
+
+theorem seqEncTree_map_eq (c : SeqCfg) (f : Nat) (key : Str) (val : Entries)
+    (h1 : key ≠ c.commentK) (h2 : key ≠ c.directiveK) (h3 : key ≠ c.procinstK) :
+    seqEncTree c (f + 1) key (.map val)
+      = match attrsOutT c val with
+        | .ok (as, hv) => encBody key as hv (lookup c.seqK val).isSome val.length
+            (lookup c.textK val) (seqKidsTree c f (sortBySeq c (unrollEntries c val)))
+        | .eof => .eof | .syntax => .syntax | .err k => .err k | .panic s => .panic s := by
+  simp only [seqEncTree, h1, h2, h3, if_false]
+  rfl
+
+theorem attrsOut_link (c : SeqCfg) (esc : Bool) (hts : c.textK ≠ c.seqK) (val : Entries)
+    (hp : seqPlainEntries c val = true) :
+    attrsOutB c esc val
+      = (attrsOutT c val).mapOk (fun p => (renderSeqAttrs esc p.1, p.2)) := by
+  unfold attrsOutB attrsOutT
+  split
+  · rename_i av hl
+    have hav : okVal c (.map av) = true :=
+      okVal_of_mem c val hp (c.attrK, .map av) (mem_of_lookup hl)
+    have hav' : seqPlainEntries c av = true := by simpa [okVal, seqPlain, isNumVal] using hav
+    rw [seqAttrsText_link c esc hts _ (fun e he =>
+      okVal_of_mem c av hav' e ((sortBySeq_perm c av).mem_iff.1 he))]
+    cases seqAttrNodes c (sortBySeq c av) <;> simp [Outcome.mapOk]
+  · simp [Outcome.mapOk, renderSeqAttrs]
+
+theorem renderSeqKids_elem (esc : Bool) (key : Str) (as : List Attr) (kids : List Node) :
+    renderSeqKids esc true [.elem [] key as kids]
+      = "<".toList ++ key ++ renderSeqAttrs esc as ++
+          (if kids.isEmpty then ">".toList ++ closeTag key
+           else ">".toList ++ renderSeqKids esc true kids ++ closeTag key) := by
+  simp [renderSeqKids, renderSeq]
+
+theorem body_link (esc : Bool) (key : Str) (as : List Attr) (hv sq : Bool) (n : Nat)
+    (ot : Option Val) (ko : Outcome (List Node))
+    (hot : ∀ tv, ot = some tv → (∃ s, tv = .str s) ∨ fmtV tv = none) :
+    encBodyB esc true key (renderSeqAttrs esc as) hv sq n ot (ko.mapOk (renderSeqKids esc true))
+      = (encBody key as hv sq n ot ko).mapOk (renderSeqKids esc true) := by
+  cases ot with
+  | none =>
+    simp only [encBodyB, encBody]
+    split
+    · simp [Outcome.mapOk, renderSeqKids, renderSeq]
+    · cases ko with
+      | ok K => cases K <;> simp [Outcome.mapOk, renderSeqKids, renderSeq]
+      | eof => rfl
+      | «syntax» => rfl
+      | err _ => rfl
+      | panic _ => rfl
+  | some tv =>
+    rcases hot tv rfl with ⟨s, rfl⟩ | hnone
+    · simp only [encBodyB, encBody, txtOf, fmtV]
+      split
+      · cases s with
+        | nil => cases esc <;> simp [Outcome.mapOk, textKid, escapeChars_nil, renderSeqKids, renderSeq]
+        | cons x xs =>
+          have := escapeChars_isEmpty' (x :: xs)
+          cases esc <;>
+            simp_all [Outcome.mapOk, textKid, renderSeqKids, renderSeq]
+      · cases ko with
+        | ok K =>
+          cases s with
+          | nil =>
+            cases K <;> cases esc <;>
+              simp [Outcome.mapOk, textKid, escapeChars_nil, renderSeqKids, renderSeq]
+          | cons x xs =>
+            cases esc <;>
+              simp [Outcome.mapOk, textKid, renderSeqKids, renderSeq]
+        | eof => rfl
+        | «syntax» => rfl
+        | err _ => rfl
+        | panic _ => rfl
+    · have htx : txtOf esc tv = none := by
+        cases tv <;> simp_all [txtOf, fmtV]
+      simp only [encBodyB, encBody, htx, hnone]
+      split
+      · rfl
+      · cases ko <;> rfl
+
+theorem members_link (c : SeqCfg) (esc : Bool) (f : Nat)
+    (P : ∀ key v, seqPlain c v = true →
+      seqEnc c esc true f key v = (seqEncTree c f key v).mapOk (renderSeqKids esc true)) :
+    ∀ (key : Str) (xs : List Val), (∀ x ∈ xs, seqPlain c x = true) →
+      seqMembers c esc true f key xs
+        = (seqMembersTree c f key xs).mapOk (renderSeqKids esc true)
+  | key, [], _ => by simp [seqMembers, seqMembersTree, Outcome.mapOk, renderSeqKids]
+  | key, x :: xs, h => by
+      have h1 := P key x (h x (List.mem_cons_self ..))
+      have h2 := members_link c esc f P key xs (fun y hy => h y (List.mem_cons_of_mem _ hy))
+      simp only [seqMembers, seqMembersTree, h1, h2]
+      cases seqEncTree c f key x <;> cases seqMembersTree c f key xs <;>
+        simp [Outcome.mapOk, renderSeqKids_append]
+
+theorem kids_link (c : SeqCfg) (esc : Bool) (f : Nat)
+    (P : ∀ key v, seqPlain c v = true →
+      seqEnc c esc true f key v = (seqEncTree c f key v).mapOk (renderSeqKids esc true)) :
+    ∀ (l : List (Str × Val)), (∀ e ∈ l, seqPlain c e.2 = true) →
+      seqKids c esc true f l = (seqKidsTree c f l).mapOk (renderSeqKids esc true)
+  | [], _ => by simp [seqKids, seqKidsTree, Outcome.mapOk, renderSeqKids]
+  | (k, v) :: rest, h => by
+      have h1 := P k v (h (k, v) (List.mem_cons_self ..))
+      have h2 := kids_link c esc f P rest (fun y hy => h y (List.mem_cons_of_mem _ hy))
+      simp only [seqKids, seqKidsTree, h1, h2]
+      cases seqEncTree c f k v <;> cases seqKidsTree c f rest <;>
+        simp [Outcome.mapOk, renderSeqKids_append]
+
+/-- bytes = rendering of the tree, for `goEmpty` and values whose leaves are strings -/
+theorem seqEnc_link (c : SeqCfg) (esc : Bool) (hts : c.textK ≠ c.seqK) : ∀ (f : Nat) (key : Str)
+    (v : Val), seqPlain c v = true →
+    seqEnc c esc true f key v = (seqEncTree c f key v).mapOk (renderSeqKids esc true) := by
+  intro f
+  induction f with
+  | zero => intro key v _; simp [seqEnc, seqEncTree, Outcome.mapOk]
+  | succ f ih =>
+    intro key v hv
+    cases v with
+    | null => simp [seqPlain] at hv
+    | bool _ => simp [seqPlain] at hv
+    | num _ => simp [seqPlain] at hv
+    | str s =>
+      cases s with
+      | nil =>
+        cases esc <;>
+          simp [seqEnc, seqEncTree, Outcome.mapOk, renderSeqKids, renderSeq, textKid, endOf,
+            escapeChars_nil, renderSeqAttrs]
+      | cons x xs =>
+        have h1 := escapeChars_isEmpty' (x :: xs)
+        have h2 : (escapeChars (x :: xs)).length ≠ 0 := by
+          intro h0
+          have := List.eq_nil_of_length_eq_zero h0
+          rw [this] at h1; simp at h1
+        cases esc <;>
+          simp_all [seqEnc, seqEncTree, Outcome.mapOk, renderSeqKids, renderSeq, textKid, endOf,
+            renderSeqAttrs]
+    | list xs =>
+      simp only [seqEnc, seqEncTree]
+      exact members_link c esc f ih key xs (seqPlainList_mem c xs (by simpa [seqPlain] using hv))
+    | map val =>
+      have hp : seqPlainEntries c val = true := by simpa [seqPlain] using hv
+      by_cases h1 : key = c.commentK
+      · subst h1
+        simp only [seqEnc, seqEncTree, if_true]
+        cases strOf (lookup c.textK val) <;> simp [Outcome.mapOk, renderSeqKids, renderSeq]
+      by_cases h2 : key = c.directiveK
+      · subst h2
+        simp only [seqEnc, seqEncTree, h1, if_true, if_false]
+        cases strOf (lookup c.textK val) <;> simp [Outcome.mapOk, renderSeqKids, renderSeq]
+      by_cases h3 : key = c.procinstK
+      · subst h3
+        simp only [seqEnc, seqEncTree, h1, h2, if_true, if_false]
+        cases strOf (lookup c.targetK val) <;> cases strOf (lookup c.instK val) <;>
+          simp [Outcome.mapOk, renderSeqKids, renderSeq]
+      rw [seqEnc_map_eq c esc true f key val h1 h2 h3, seqEncTree_map_eq c f key val h1 h2 h3,
+        attrsOut_link c esc hts val hp,
+        kids_link c esc f ih _ (fun e he =>
+          plain_unroll c val hp e ((sortBySeq_perm c _).mem_iff.1 he))]
+      cases attrsOutT c val with
+      | ok p =>
+        obtain ⟨as, hvb⟩ := p
+        simp only [Outcome.mapOk]
+        apply body_link
+        intro tv htv
+        have hpl := plain_of_lookup c c.textK hts val tv hp htv
+        cases tv with
+        | str s => exact .inl ⟨s, rfl⟩
+        | list _ => exact .inr rfl
+        | map _ => exact .inr rfl
+        | null => simp [seqPlain] at hpl
+        | bool _ => simp [seqPlain] at hpl
+        | num _ => simp [seqPlain] at hpl
+      | eof => rfl
+      | «syntax» => rfl
+      | err _ => rfl
+      | panic _ => rfl
+
+/-! ### (10) decoded values are in the plain domain -/
+
+theorem seqPlainEntries_append (c : SeqCfg) : ∀ (X Y : Entries),
+    seqPlainEntries c (X ++ Y) = (seqPlainEntries c X && seqPlainEntries c Y)
+  | [], Y => by simp [seqPlainEntries]
+  | (k, v) :: X, Y => by
+      simp only [List.cons_append, seqPlainEntries, seqPlainEntries_append c X Y, Bool.and_assoc]
+
+theorem seqPlainEntries_insert (c : SeqCfg) (k : Str) (v : Val)
+    (hv : ((k = c.seqK && isNumVal v) || seqPlain c v) = true) : ∀ (l : Entries),
+    seqPlainEntries c l = true → seqPlainEntries c (insert k v l) = true
+  | [], _ => by simp only [insert, seqPlainEntries, hv, Bool.and_self]
+  | (k', v') :: rest, h => by
+      simp only [seqPlainEntries, Bool.and_eq_true] at h
+      by_cases e : k = k'
+      · simp only [insert, e, if_true, seqPlainEntries, Bool.and_eq_true]
+        exact ⟨by rw [← e]; exact hv, h.2⟩
+      · simp only [insert, e, if_false, seqPlainEntries, Bool.and_eq_true]
+        exact ⟨h.1, seqPlainEntries_insert c k v hv rest h.2⟩
+
+theorem seqPlainList_append (c : SeqCfg) : ∀ (X Y : List Val),
+    seqPlainList c (X ++ Y) = (seqPlainList c X && seqPlainList c Y)
+  | [], Y => by simp [seqPlainList]
+  | x :: X, Y => by
+      simp only [List.cons_append, seqPlainList, seqPlainList_append c X Y, Bool.and_assoc]
+
+theorem plain_promote (c : SeqCfg) (o : Option Val) (v : Val)
+    (ho : ∀ old, o = some old → seqPlain c old = true) (hv : seqPlain c v = true) :
+    seqPlain c (promote o v) = true := by
+  cases o with
+  | none => exact hv
+  | some old =>
+    have h := ho old rfl
+    cases old with
+    | list xs =>
+      simp only [seqPlain] at h
+      simp [promote, seqPlain, seqPlainList_append, seqPlainList, h, hv]
+    | null => simp [seqPlain] at h
+    | bool _ => simp [seqPlain] at h
+    | num _ => simp [seqPlain] at h
+    | str _ => simp [promote, seqPlain, seqPlainList, hv]
+    | map _ =>
+      simp only [seqPlain] at h
+      simp [promote, seqPlain, seqPlainList, hv, h]
+
+theorem plainEntries_addChild (c : SeqCfg) (na : Entries) (k : Str) (v : Val) (hk : k ≠ c.seqK)
+    (hv : seqPlain c v = true) (hna : seqPlainEntries c na = true) :
+    seqPlainEntries c (addChild na k v) = true := by
+  rw [addChild_eq]
+  apply seqPlainEntries_insert c k _ _ na hna
+  have := plain_promote c (lookup k na) v (fun old ho => plain_of_lookup c k hk na old hna ho) hv
+  simp [this]
+
+theorem plainEntries_addAll (c : SeqCfg) : ∀ (cs : List (Str × Val)) (na : Entries),
+    (∀ e ∈ cs, e.1 ≠ c.seqK ∧ seqPlain c e.2 = true) → seqPlainEntries c na = true →
+    seqPlainEntries c (addAll na cs) = true
+  | [], na, _, h => h
+  | e :: cs, na, he, h => by
+      rw [addAll_cons]
+      have h1 := he e (List.mem_cons_self ..)
+      exact plainEntries_addAll c cs _ (fun e' he' => he e' (List.mem_cons_of_mem _ he'))
+        (plainEntries_addChild c na e.1 e.2 h1.1 h1.2 h)
+
+theorem isNumVal_seqNum (n : Nat) : isNumVal (seqNum n) = true := rfl
+
+theorem plain_seqChild (c : SeqCfg) (n : Nat) (v : Val) (hv : seqPlain c v = true) :
+    seqPlain c (seqChild c n v) = true := by
+  cases v with
+  | map kvs =>
+    simp only [seqPlain] at hv
+    simp only [seqChild, seqPlain]
+    exact seqPlainEntries_insert c _ _ (by simp [isNumVal_seqNum]) kvs hv
+  | str s => simp [seqChild, seqPlain, seqPlainEntries, isNumVal_seqNum]
+  | list xs =>
+    simp only [seqPlain] at hv
+    simp [seqChild, seqPlain, seqPlainEntries, isNumVal_seqNum, hv]
+  | null => simp [seqPlain] at hv
+  | bool _ => simp [seqPlain] at hv
+  | num _ => simp [seqPlain] at hv
+
+theorem plain_attrEntries (c : SeqCfg) : ∀ (attrs : List Attr) (i : Nat),
+    seqPlainEntries c (attrEntries c i attrs) = true
+  | [], _ => rfl
+  | a :: as, i => by
+      simp [attrEntries, seqPlainEntries, seqPlain, isNumVal_seqNum, plain_attrEntries c as (i + 1)]
+
+theorem plain_finish (c : SeqCfg) (na : Entries) (h : seqPlainEntries c na = true) :
+    seqPlain c (SeqFold.finish na) = true := by
+  unfold SeqFold.finish
+  split
+  · rfl
+  · simpa [seqPlain] using h
+
+mutual
+theorem plain_value (c : SeqCfg) (S : Strconv) (hc : CfgOk c) : ∀ (t : Node),
+    seqDomain c t = true → seqPlain c (SeqFold.value c S t) = true
+  | .elem sp name attrs kids, hd => by
+      have dp := seqDomain_parts hd
+      have hkeys := items_keys c S hc kids (if (leadText c kids).isSome then 1 else 0) dp.kids
+      have hit := plain_items c S hc kids dp.kids (if (leadText c kids).isSome then 1 else 0)
+      rw [value_eq_finish, decodedEntries_form c S hc sp name attrs kids hd]
+      apply plain_finish
+      rw [seqPlainEntries_append, seqPlainEntries_append, Bool.and_eq_true, Bool.and_eq_true]
+      refine ⟨⟨?_, ?_⟩, ?_⟩
+      · split
+        · rfl
+        · simp [seqPlainEntries, seqPlain, plain_attrEntries]
+      · cases leadText c kids <;>
+          simp [textEntries, seqPlainEntries, seqPlain, isNumVal_seqNum]
+      · exact plainEntries_addAll c _ [] (fun e he => ⟨(hkeys e he).2.1, hit e he⟩) rfl
+  | .text _, h => by simp [seqDomain] at h
+  | .comment _, h => by simp [seqDomain] at h
+  | .directive _, h => by simp [seqDomain] at h
+  | .procinst _ _, h => by simp [seqDomain] at h
+theorem plain_items (c : SeqCfg) (S : Strconv) (hc : CfgOk c) : ∀ (kids : List Node),
+    seqDomainKids c kids = true → ∀ (seq : Nat), ∀ e ∈ items c S seq kids, seqPlain c e.2 = true
+  | [], _, seq, e, h => by simp [items] at h
+  | .elem sp name attrs ks :: rest, hd, seq, e, h => by
+      simp only [seqDomainKids, Bool.and_eq_true] at hd
+      simp only [items, List.mem_cons] at h
+      rcases h with rfl | h
+      · exact plain_seqChild c seq _ (plain_value c S hc (.elem sp name attrs ks) hd.1)
+      · exact plain_items c S hc rest hd.2 _ e h
+  | .text _ :: rest, hd, seq, e, h => by
+      simp only [seqDomainKids] at hd
+      simp only [items] at h; exact plain_items c S hc rest hd _ e h
+  | .comment _ :: rest, hd, seq, e, h => by
+      simp only [seqDomainKids] at hd
+      simp only [items, List.mem_cons] at h
+      rcases h with rfl | h
+      · simp [noteVal, seqPlain, seqPlainEntries, isNumVal_seqNum]
+      · exact plain_items c S hc rest hd _ e h
+  | .directive _ :: rest, hd, seq, e, h => by
+      simp only [seqDomainKids] at hd
+      simp only [items, List.mem_cons] at h
+      rcases h with rfl | h
+      · simp [noteVal, seqPlain, seqPlainEntries, isNumVal_seqNum]
+      · exact plain_items c S hc rest hd _ e h
+  | .procinst _ _ :: rest, hd, seq, e, h => by
+      simp only [seqDomainKids] at hd
+      simp only [items, List.mem_cons] at h
+      rcases h with rfl | h
+      · simp [piVal, seqPlain, seqPlainEntries, isNumVal_seqNum]
+      · exact plain_items c S hc rest hd _ e h
+end
+
+/-! ### (11) the fuel `mapSeqXml` supplies is enough -/
+
+theorem depth_le_entries {k : Str} {v : Val} : ∀ {l : Entries}, (k, v) ∈ l →
+    Val.depth v ≤ Val.depthEntries l
+  | [], h => by simp at h
+  | (k', v') :: rest, h => by
+      simp only [Val.depthEntries]
+      rcases List.mem_cons.1 h with h | h
+      · cases h; exact Nat.le_max_left _ _
+      · exact Nat.le_trans (depth_le_entries h) (Nat.le_max_right _ _)
+
+theorem depth_le_list {x : Val} : ∀ {xs : List Val}, x ∈ xs → Val.depth x ≤ Val.depthList xs
+  | [], h => by simp at h
+  | y :: ys, h => by
+      simp only [Val.depthList]
+      rcases List.mem_cons.1 h with h | h
+      · cases h; exact Nat.le_max_left _ _
+      · exact Nat.le_trans (depth_le_list h) (Nat.le_max_right _ _)
+
+theorem depth_unroll (c : SeqCfg) : ∀ (l : Entries), ∀ e ∈ unrollEntries c l,
+    Val.depth e.2 ≤ Val.depthEntries l
+  | [], e, h => by simp [unrollEntries] at h
+  | (k, v) :: rest, e, h => by
+      rw [unrollEntries_cons, List.mem_append] at h
+      simp only [Val.depthEntries]
+      rcases h with h | h
+      · refine Nat.le_trans ?_ (Nat.le_max_left _ _)
+        split at h
+        · simp at h
+        · cases v with
+          | list xs =>
+            simp only [unroll1, List.mem_map] at h
+            obtain ⟨x, hx, rfl⟩ := h
+            simp only [Val.depth]
+            exact Nat.le_succ_of_le (depth_le_list hx)
+          | null => simp only [unroll1, List.mem_singleton] at h; subst h; exact Nat.le_refl _
+          | bool _ => simp only [unroll1, List.mem_singleton] at h; subst h; exact Nat.le_refl _
+          | num _ => simp only [unroll1, List.mem_singleton] at h; subst h; exact Nat.le_refl _
+          | str _ => simp only [unroll1, List.mem_singleton] at h; subst h; exact Nat.le_refl _
+          | map _ => simp only [unroll1, List.mem_singleton] at h; subst h; exact Nat.le_refl _
+      · exact Nat.le_trans (depth_unroll c rest e h) (Nat.le_max_right _ _)
+
+theorem unroll_insert_seq (c : SeqCfg) (v : Val) (l : Entries) :
+    unrollEntries c (insert c.seqK v l) = unrollEntries c l :=
+  unrollEntries_insert_dropped c _ _ (by simp [dropK]) l
+
+mutual
+theorem height_le_depth (c : SeqCfg) (S : Strconv) (hc : CfgOk c) : ∀ (t : Node),
+    seqDomain c t = true →
+      t.height ≤ Val.depth (SeqFold.value c S t) + 1
+      ∧ ∀ n, t.height ≤ Val.depth (seqChild c n (SeqFold.value c S t)) + 1
+  | .elem sp name attrs kids, hd => by
+      have dp := seqDomain_parts hd
+      have hperm := itemsOf_unrolled c S hc sp name attrs kids hd
+      have hk := height_items c S hc kids dp.kids (if (leadText c kids).isSome then 1 else 0)
+      rw [value_eq_finish]
+      simp only [Node.height]
+      by_cases he : (decodedEntries c S attrs kids).isEmpty = true
+      · have hnil : decodedEntries c S attrs kids = [] := by
+          cases h : decodedEntries c S attrs kids with
+          | nil => rfl
+          | cons _ _ => rw [h] at he; simp at he
+        have hits : itemsOf c S kids = [] := by
+          rw [hnil] at hperm
+          simpa [unrollEntries] using hperm.symm
+        have h0 := hk 0 (by
+          intro e he'
+          unfold itemsOf at hits
+          rw [hits] at he'; simp at he')
+        simp only [SeqFold.finish, he, if_true, seqChild, Val.depth, Val.depthEntries, seqNum]
+        exact ⟨by omega, fun n => by omega⟩
+      · have h1 := hk (Val.depthEntries (decodedEntries c S attrs kids)) (fun e he' =>
+          depth_unroll c _ e (hperm.mem_iff.2 he'))
+        have he' : (decodedEntries c S attrs kids).isEmpty = false := by simpa using he
+        simp only [SeqFold.finish, he', Bool.false_eq_true, if_false, seqChild, Val.depth]
+        refine ⟨by omega, fun n => ?_⟩
+        have h2 := hk (Val.depthEntries (insert c.seqK (seqNum n) (decodedEntries c S attrs kids)))
+          (fun e he' => depth_unroll c _ e (by
+            rw [unroll_insert_seq]; exact hperm.mem_iff.2 he'))
+        omega
+  | .text _, h => by simp [seqDomain] at h
+  | .comment _, h => by simp [seqDomain] at h
+  | .directive _, h => by simp [seqDomain] at h
+  | .procinst _ _, h => by simp [seqDomain] at h
+theorem height_items (c : SeqCfg) (S : Strconv) (hc : CfgOk c) : ∀ (kids : List Node),
+    seqDomainKids c kids = true → ∀ (seq D : Nat),
+    (∀ e ∈ items c S seq kids, Val.depth e.2 ≤ D) → Node.heightKids kids ≤ D + 1
+  | [], _, seq, D, _ => by simp [Node.heightKids]
+  | .elem sp name attrs ks :: rest, hd, seq, D, h => by
+      simp only [seqDomainKids, Bool.and_eq_true] at hd
+      simp only [items, List.mem_cons, forall_eq_or_imp] at h
+      have h1 := (height_le_depth c S hc (.elem sp name attrs ks) hd.1).2 seq
+      have h2 := height_items c S hc rest hd.2 (seq + 1) D h.2
+      simp only [Node.heightKids]
+      have := h.1
+      omega
+  | .text _ :: rest, hd, seq, D, h => by
+      simp only [seqDomainKids] at hd
+      simp only [items] at h
+      have h2 := height_items c S hc rest hd seq D h
+      simp only [Node.heightKids, Node.height]
+      omega
+  | .comment _ :: rest, hd, seq, D, h => by
+      simp only [seqDomainKids] at hd
+      simp only [items, List.mem_cons, forall_eq_or_imp] at h
+      have h2 := height_items c S hc rest hd (seq + 1) D h.2
+      simp only [Node.heightKids, Node.height]
+      omega
+  | .directive _ :: rest, hd, seq, D, h => by
+      simp only [seqDomainKids] at hd
+      simp only [items, List.mem_cons, forall_eq_or_imp] at h
+      have h2 := height_items c S hc rest hd (seq + 1) D h.2
+      simp only [Node.heightKids, Node.height]
+      omega
+  | .procinst _ _ :: rest, hd, seq, D, h => by
+      simp only [seqDomainKids] at hd
+      simp only [items, List.mem_cons, forall_eq_or_imp] at h
+      have h2 := height_items c S hc rest hd (seq + 1) D h.2
+      simp only [Node.heightKids, Node.height]
+      omega
+end
+
+theorem finish_cases (na : Entries) :
+    SeqFold.finish na = .str [] ∨ SeqFold.finish na = .map na := by
+  unfold SeqFold.finish
+  split
+  · exact .inl rfl
+  · exact .inr rfl
+
+/-- `mv.Xml()` on the one-key MapSeq of a document is `seqEnc` on the root with enough fuel -/
+theorem mapSeqXml_root (c : SeqCfg) (esc ge : Bool) (key : Str) (na : Entries) :
+    mapSeqXml c esc ge [(key, SeqFold.finish na)]
+      = seqEnc c esc ge (2 * Val.depth (.map [(key, SeqFold.finish na)]) + 2) key
+          (SeqFold.finish na) := by
+  rcases finish_cases na with h | h <;> rw [h] <;> rfl
+
+/-- end to end at byte level (with `goEmpty`): the decoded root re-encodes to the rendering of
+    the normalised document -/
+theorem mapSeqXml_roundtrip (c : SeqCfg) (S : Strconv) (hc : CfgOk c) (esc : Bool)
+    (sp name : Str) (attrs : List Attr) (kids : List Node)
+    (hd : seqDomain c (.elem sp name attrs kids) = true) :
+    mapSeqXml c esc true [(qualName c sp name, SeqFold.value c S (.elem sp name attrs kids))]
+      = .ok (renderSeq esc true (qualify c (normalizeC c (.elem sp name attrs kids)))) := by
+  have hh := (height_le_depth c S hc _ hd).1
+  have hp := plain_value c S hc _ hd
+  have ht := enc_tree c S hc (.elem sp name attrs kids)
+  simp only at ht
+  rw [value_eq_finish] at *
+  rw [mapSeqXml_root, seqEnc_link c esc hc.ts _ _ _ hp]
+  rw [(ht hd _ (by
+    simp only [Val.depth, Val.depthEntries]
+    have := Nat.le_max_left (Val.depth (SeqFold.finish (decodedEntries c S attrs kids))) 0
+    omega)).1]
+  simp [Outcome.mapOk, renderSeqKids]
+
+/-! ### (12) children in place -/
+
+theorem qualifyKids_eq_map (c : SeqCfg) : ∀ (l : List Node), qualifyKids c l = l.map (qualify c)
+  | [] => rfl
+  | k :: l => by simp only [qualifyKids, List.map_cons, qualifyKids_eq_map c l]
+
+theorem normalizeKids_dropText (c : SeqCfg) : ∀ (ks : List Node),
+    normalizeKidsC c (dropText ks) = (dropText ks).map (normalizeC c)
+  | [] => rfl
+  | .text _ :: r => by simp only [dropText]; exact normalizeKids_dropText c r
+  | .elem _ _ _ _ :: r => by
+      simp only [dropText, normalizeKidsC, List.map_cons, normalizeKids_dropText c r]
+  | .comment _ :: r => by
+      simp only [dropText, normalizeKidsC, List.map_cons, normalizeKids_dropText c r]
+  | .directive _ :: r => by
+      simp only [dropText, normalizeKidsC, List.map_cons, normalizeKids_dropText c r]
+  | .procinst _ _ :: r => by
+      simp only [dropText, normalizeKidsC, List.map_cons, normalizeKids_dropText c r]
+
+/-- the children of the normalised, qualified element: the text (if any), then every non-text
+    child in its place -/
+theorem normalized_children (c : SeqCfg) (kids : List Node) (h : textFirst c kids = true) :
+    qualifyKids c (normalizeKidsC c kids)
+      = textNodes (leadText c kids)
+        ++ (dropText kids).map (fun k => qualify c (normalizeC c k)) := by
+  rw [norm_split c kids h, qualifyKids_append, qualifyKids_textNodes, normalizeKids_dropText,
+    qualifyKids_eq_map, List.map_map]
+  rfl
+
+/-! ### (13) Go's map order at EVERY level -/
+
+mutual
+/-- `VPerm w v`: `w` is `v` with the entries of every map, at every level, in some other order -/
+def VPerm : Val → Val → Prop
+  | .null, v => v = .null
+  | .bool b, v => v = .bool b
+  | .num t, v => v = .num t
+  | .str s, v => v = .str s
+  | .list xs, v => ∃ ys, v = .list ys ∧ LPerm xs ys
+  | .map kvs, v => ∃ m b, v = .map b ∧ List.Perm m b ∧ EPerm kvs m
+def LPerm : List Val → List Val → Prop
+  | [], ys => ys = []
+  | x :: xs, ys => ∃ y ys', ys = y :: ys' ∧ VPerm x y ∧ LPerm xs ys'
+/-- same keys in the same order, values related -/
+def EPerm : Entries → Entries → Prop
+  | [], m => m = []
+  | (k, x) :: xs, m => ∃ y ys, m = (k, y) :: ys ∧ VPerm x y ∧ EPerm xs ys
+end
+
+mutual
+theorem VPerm.refl : ∀ (v : Val), VPerm v v
+  | .null => by simp [VPerm]
+  | .bool _ => by simp [VPerm]
+  | .num _ => by simp [VPerm]
+  | .str _ => by simp [VPerm]
+  | .list xs => by simp only [VPerm]; exact ⟨xs, rfl, LPerm.refl xs⟩
+  | .map kvs => by simp only [VPerm]; exact ⟨kvs, kvs, rfl, List.Perm.refl _, EPerm.refl kvs⟩
+theorem LPerm.refl : ∀ (xs : List Val), LPerm xs xs
+  | [] => by simp [LPerm]
+  | x :: xs => by simp only [LPerm]; exact ⟨x, xs, rfl, VPerm.refl x, LPerm.refl xs⟩
+theorem EPerm.refl : ∀ (kvs : Entries), EPerm kvs kvs
+  | [] => by simp [EPerm]
+  | (k, x) :: xs => by simp only [EPerm]; exact ⟨x, xs, rfl, VPerm.refl x, EPerm.refl xs⟩
+end
+
+/-- a map value has distinct keys -/
+def keysOk : Val → Prop
+  | .map kvs => (keys kvs).Nodup
+  | _ => True
+
+/-- the attribute map: distinct names, distinct sequence numbers, every entry a map with
+    distinct keys -/
+def GoodAttrs (c : SeqCfg) (av : Entries) : Prop :=
+  (keys av).Nodup ∧ (av.map (fun e => seqOf c e.2)).Nodup ∧ ∀ e ∈ av, keysOk e.2
+
+/-- the keys under which the encoder writes a comment, directive or processing instruction -/
+def isNoteKey (c : SeqCfg) (k : Str) : Prop := k = c.commentK ∨ k = c.directiveK ∨ k = c.procinstK
+
+mutual
+/-- `GoodAt c key v`: `v`, stored under `key`, is what the encoder needs to be order-independent:
+    every map, at every level, is what a Go map can be (distinct keys) and — unless it is a
+    comment / directive / processing-instruction entry — its children and its attributes carry
+    pairwise distinct sequence numbers -/
+def GoodAt (c : SeqCfg) : Str → Val → Prop
+  | key, .map kvs => (keys kvs).Nodup
+      ∧ (isNoteKey c key ∨
+          (((unrollEntries c kvs).map (fun e => seqOf c e.2)).Nodup
+          ∧ (∀ av, lookup c.attrK kvs = some (.map av) → GoodAttrs c av)
+          ∧ GoodE c kvs))
+  | key, .list xs => GoodLAt c key xs
+  | _, _ => True
+def GoodLAt (c : SeqCfg) : Str → List Val → Prop
+  | _, [] => True
+  | key, x :: xs => GoodAt c key x ∧ GoodLAt c key xs
+def GoodE (c : SeqCfg) : Entries → Prop
+  | [] => True
+  | (k, v) :: r => (k = c.attrK ∨ GoodAt c k v) ∧ GoodE c r
+end
+
+theorem GoodAt.keysOk {c : SeqCfg} {key : Str} : ∀ {v : Val}, GoodAt c key v → keysOk v
+  | .map _, h => by simp only [GoodAt] at h; exact h.1
+  | .null, _ => trivial
+  | .bool _, _ => trivial
+  | .num _, _ => trivial
+  | .str _, _ => trivial
+  | .list _, _ => trivial
+
+theorem GoodE_iff (c : SeqCfg) : ∀ (l : Entries),
+    GoodE c l ↔ ∀ e ∈ l, e.1 = c.attrK ∨ GoodAt c e.1 e.2
+  | [] => by simp [GoodE]
+  | (k, v) :: r => by simp [GoodE, GoodE_iff c r]
+
+/-! shape preservation -/
+
+theorem vperm_fmtV {w v : Val} (h : VPerm w v) : fmtV w = fmtV v := by
+  cases w with
+  | null => simp only [VPerm] at h; rw [h]
+  | bool _ => simp only [VPerm] at h; rw [h]
+  | num _ => simp only [VPerm] at h; rw [h]
+  | str _ => simp only [VPerm] at h; rw [h]
+  | list _ => simp only [VPerm] at h; obtain ⟨ys, rfl, _⟩ := h; rfl
+  | map _ => simp only [VPerm] at h; obtain ⟨m, b, rfl, _, _⟩ := h; rfl
+
+theorem vperm_strOf {w v : Val} (h : VPerm w v) : strOf (some w) = strOf (some v) := by
+  cases w with
+  | null => simp only [VPerm] at h; rw [h]
+  | bool _ => simp only [VPerm] at h; rw [h]
+  | num _ => simp only [VPerm] at h; rw [h]
+  | str _ => simp only [VPerm] at h; rw [h]
+  | list _ => simp only [VPerm] at h; obtain ⟨ys, rfl, _⟩ := h; rfl
+  | map _ => simp only [VPerm] at h; obtain ⟨m, b, rfl, _, _⟩ := h; rfl
+
+/-- lookups in pointwise-related entry lists are related -/
+def LookRel (o' o : Option Val) : Prop :=
+  (o' = none ∧ o = none) ∨ ∃ x y, o' = some x ∧ o = some y ∧ VPerm x y
+
+theorem eperm_lookup (k : Str) : ∀ {a m : Entries}, EPerm a m → LookRel (lookup k a) (lookup k m)
+  | [], m, h => by simp only [EPerm] at h; subst h; exact .inl ⟨rfl, rfl⟩
+  | (k', x) :: xs, m, h => by
+      simp only [EPerm] at h
+      obtain ⟨y, ys, rfl, hv, hr⟩ := h
+      by_cases e : k = k'
+      · simp only [lookup, e, if_true]
+        exact .inr ⟨x, y, rfl, rfl, hv⟩
+      · simp only [lookup, e, if_false]
+        exact eperm_lookup k hr
+
+theorem eperm_length : ∀ {a m : Entries}, EPerm a m → a.length = m.length
+  | [], m, h => by simp only [EPerm] at h; subst h; rfl
+  | (k', x) :: xs, m, h => by
+      simp only [EPerm] at h
+      obtain ⟨y, ys, rfl, _, hr⟩ := h
+      simp [eperm_length hr]
+
+theorem lookRel_strOf {o' o : Option Val} (h : LookRel o' o) : strOf o' = strOf o := by
+  rcases h with ⟨rfl, rfl⟩ | ⟨x, y, rfl, rfl, hv⟩
+  · rfl
+  · exact vperm_strOf hv
+
+theorem lookRel_isSome {o' o : Option Val} (h : LookRel o' o) : o'.isSome = o.isSome := by
+  rcases h with ⟨rfl, rfl⟩ | ⟨x, y, rfl, rfl, _⟩ <;> rfl
+
+theorem seqOf_nonNum (c : SeqCfg) (kvs : Entries) (x : Val) (h : lookup c.seqK kvs = some x)
+    (hx : isNumVal x = false) : seqOf c (.map kvs) = 9999999 := by
+  cases x <;> simp_all [seqOf, isNumVal]
+
+theorem seqOf_none (c : SeqCfg) (kvs : Entries) (h : lookup c.seqK kvs = none) :
+    seqOf c (.map kvs) = 9999999 := by
+  simp [seqOf, h]
+
+theorem vperm_isNum {w v : Val} (h : VPerm w v) : isNumVal w = isNumVal v := by
+  cases w with
+  | null => simp only [VPerm] at h; rw [h]
+  | bool _ => simp only [VPerm] at h; rw [h]
+  | num _ => simp only [VPerm] at h; rw [h]
+  | str _ => simp only [VPerm] at h; rw [h]
+  | list _ => simp only [VPerm] at h; obtain ⟨ys, rfl, _⟩ := h; rfl
+  | map _ => simp only [VPerm] at h; obtain ⟨m, b, rfl, _, _⟩ := h; rfl
+
+theorem vperm_num_eq {w v : Val} (h : VPerm w v) (hn : isNumVal w = true) : w = v := by
+  cases w with
+  | num _ => simp only [VPerm] at h; rw [h]
+  | null => simp [isNumVal] at hn
+  | bool _ => simp [isNumVal] at hn
+  | str _ => simp [isNumVal] at hn
+  | list _ => simp [isNumVal] at hn
+  | map _ => simp [isNumVal] at hn
+
+/-- related values carry the same sequence number -/
+theorem seqOf_congr (c : SeqCfg) {w v : Val} (h : VPerm w v) (hk : keysOk v) :
+    seqOf c w = seqOf c v := by
+  cases w with
+  | null => simp only [VPerm] at h; rw [h]
+  | bool _ => simp only [VPerm] at h; rw [h]
+  | num _ => simp only [VPerm] at h; rw [h]
+  | str _ => simp only [VPerm] at h; rw [h]
+  | list _ => simp only [VPerm] at h; obtain ⟨ys, rfl, _⟩ := h; rfl
+  | map a =>
+    simp only [VPerm] at h
+    obtain ⟨m, b, rfl, hp, he⟩ := h
+    have hl : lookup c.seqK m = lookup c.seqK b := lookup_perm hp hk _
+    rcases eperm_lookup c.seqK he with ⟨h1, h2⟩ | ⟨x, y, h1, h2, hv⟩
+    · rw [seqOf_none c a h1, seqOf_none c b (hl ▸ h2)]
+    · by_cases hn : isNumVal x = true
+      · have := vperm_num_eq hv hn
+        subst this
+        simp only [seqOf, h1, ← hl, h2]
+      · have hn' : isNumVal x = false := by simpa using hn
+        rw [seqOf_nonNum c a x h1 hn', seqOf_nonNum c b y (hl ▸ h2) ((vperm_isNum hv) ▸ hn')]
+
+/-- pointwise: same keys, related values, the right-hand values good -/
+def PW (P : Str → Val → Prop) : List (Str × Val) → List (Str × Val) → Prop
+  | [], l => l = []
+  | e' :: r', l => ∃ e r, l = e :: r ∧ e'.1 = e.1 ∧ VPerm e'.2 e.2 ∧ P e.1 e.2 ∧ PW P r' r
+
+theorem PW_of_EPerm (P : Str → Val → Prop) : ∀ {a m : Entries}, EPerm a m → (∀ e ∈ m, P e.1 e.2) → PW P a m
+  | [], m, h, _ => by simp only [EPerm] at h; subst h; simp [PW]
+  | (k, x) :: xs, m, h, hg => by
+      simp only [EPerm] at h
+      obtain ⟨y, ys, rfl, hv, hr⟩ := h
+      simp only [PW]
+      exact ⟨(k, y), ys, rfl, rfl, hv, hg _ (List.mem_cons_self ..),
+        PW_of_EPerm P hr (fun e he => hg e (List.mem_cons_of_mem _ he))⟩
+
+theorem PW_append (P : Str → Val → Prop) : ∀ {a' a b' b : List (Str × Val)}, PW P a' a → PW P b' b →
+    PW P (a' ++ b') (a ++ b)
+  | [], a, b', b, h1, h2 => by simp only [PW] at h1; subst h1; simpa using h2
+  | e' :: r', a, b', b, h1, h2 => by
+      simp only [PW] at h1
+      obtain ⟨e, r, rfl, hk, hv, hg, hr⟩ := h1
+      simp only [List.cons_append, PW]
+      exact ⟨e, r ++ b, rfl, hk, hv, hg, PW_append P hr h2⟩
+
+theorem PW_insertBySeq (c : SeqCfg) (P : Str → Val → Prop) (hP : ∀ k v, P k v → keysOk v)
+    {e' e : Str × Val} (hk : e'.1 = e.1) (hv : VPerm e'.2 e.2) (hg : P e.1 e.2) :
+    ∀ {l' l : List (Str × Val)}, PW P l' l → PW P (insertBySeq c e' l') (insertBySeq c e l)
+  | [], l, h => by
+      simp only [PW] at h; subst h
+      simp only [insertBySeq, PW]
+      exact ⟨e, [], rfl, hk, hv, hg, rfl⟩
+  | x' :: r', l, h => by
+      simp only [PW] at h
+      obtain ⟨x, r, rfl, hxk, hxv, hxg, hr⟩ := h
+      simp only [insertBySeq, seqOf_congr c hxv (hP _ _ hxg), seqOf_congr c hv (hP _ _ hg)]
+      split
+      · simp only [PW]
+        exact ⟨x, _, rfl, hxk, hxv, hxg, PW_insertBySeq c P hP hk hv hg hr⟩
+      · simp only [PW]
+        exact ⟨e, _, rfl, hk, hv, hg, x, r, rfl, hxk, hxv, hxg, hr⟩
+
+theorem PW_sortBySeq (c : SeqCfg) (P : Str → Val → Prop) (hP : ∀ k v, P k v → keysOk v) :
+    ∀ {l' l : List (Str × Val)}, PW P l' l → PW P (sortBySeq c l') (sortBySeq c l)
+  | [], l, h => by simp only [PW] at h; subst h; simp [sortBySeq, PW]
+  | e' :: r', l, h => by
+      simp only [PW] at h
+      obtain ⟨e, r, rfl, hk, hv, hg, hr⟩ := h
+      rw [sortBySeq_cons, sortBySeq_cons]
+      exact PW_insertBySeq c P hP hk hv hg (PW_sortBySeq c P hP hr)
+
+theorem PW_mapKey (c : SeqCfg) (k : Str) : ∀ {xs ys : List Val}, LPerm xs ys → GoodLAt c k ys →
+    PW (GoodAt c) (xs.map (fun x => (k, x))) (ys.map (fun x => (k, x)))
+  | [], ys, h, _ => by simp only [LPerm] at h; subst h; simp [PW]
+  | x :: xs, ys, h, hg => by
+      simp only [LPerm] at h
+      obtain ⟨y, ys', rfl, hv, hr⟩ := h
+      simp only [GoodLAt] at hg
+      simp only [List.map_cons, PW]
+      exact ⟨(k, y), _, rfl, rfl, hv, hg.1, PW_mapKey c k hr hg.2⟩
+
+theorem PW_unroll1 (c : SeqCfg) (k : Str) {v' v : Val} (hv : VPerm v' v) (hg : GoodAt c k v) :
+    PW (GoodAt c) (unroll1 k v') (unroll1 k v) := by
+  cases v' with
+  | list xs =>
+    simp only [VPerm] at hv
+    obtain ⟨ys, rfl, hl⟩ := hv
+    simp only [GoodAt] at hg
+    exact PW_mapKey c k hl hg
+  | null =>
+    have hv' := hv
+    simp only [VPerm] at hv; subst hv
+    simp only [unroll1, PW]
+    exact ⟨_, [], rfl, rfl, hv', hg, rfl⟩
+  | bool _ =>
+    have hv' := hv
+    simp only [VPerm] at hv; subst hv
+    simp only [unroll1, PW]
+    exact ⟨_, [], rfl, rfl, hv', hg, rfl⟩
+  | num _ =>
+    have hv' := hv
+    simp only [VPerm] at hv; subst hv
+    simp only [unroll1, PW]
+    exact ⟨_, [], rfl, rfl, hv', hg, rfl⟩
+  | str _ =>
+    have hv' := hv
+    simp only [VPerm] at hv; subst hv
+    simp only [unroll1, PW]
+    exact ⟨_, [], rfl, rfl, hv', hg, rfl⟩
+  | map a =>
+    have hv' := hv
+    simp only [VPerm] at hv
+    obtain ⟨m, b, rfl, _, _⟩ := hv
+    simp only [unroll1, PW]
+    exact ⟨(k, .map b), [], rfl, rfl, hv', hg, rfl⟩
+
+/-- unrolling pointwise-related entries (attribute entries are skipped, so need not be good) -/
+theorem PW_unroll (c : SeqCfg) : ∀ {a m : Entries}, EPerm a m → GoodE c m →
+    PW (GoodAt c) (unrollEntries c a) (unrollEntries c m)
+  | [], m, h, _ => by simp only [EPerm] at h; subst h; simp [unrollEntries, PW]
+  | (k, x) :: xs, m, h, hg => by
+      simp only [EPerm] at h
+      obtain ⟨y, ys, rfl, hv, hr⟩ := h
+      simp only [GoodE] at hg
+      rw [unrollEntries_cons, unrollEntries_cons]
+      refine PW_append _ ?_ (PW_unroll c hr hg.2)
+      by_cases hd : dropK c k = true
+      · simp [hd, PW]
+      · simp only [hd, Bool.false_eq_true, if_false]
+        rcases hg.1 with hka | hgy
+        · exfalso; apply hd; simp [dropK, hka]
+        · exact PW_unroll1 c k hv hgy
+
+theorem seqAttrNode_congr (c : SeqCfg) (k : Str) {v' v : Val} (hv : VPerm v' v) (hk : keysOk v) :
+    seqAttrNode c k v' = seqAttrNode c k v := by
+  cases v' with
+  | null => simp only [VPerm] at hv; rw [hv]
+  | bool _ => simp only [VPerm] at hv; rw [hv]
+  | num _ => simp only [VPerm] at hv; rw [hv]
+  | str _ => simp only [VPerm] at hv; rw [hv]
+  | list _ => simp only [VPerm] at hv; obtain ⟨ys, rfl, _⟩ := hv; rfl
+  | map a =>
+    simp only [VPerm] at hv
+    obtain ⟨m, b, rfl, hp, he⟩ := hv
+    have hl : lookup c.textK m = lookup c.textK b := lookup_perm hp hk _
+    rcases eperm_lookup c.textK he with ⟨h1, h2⟩ | ⟨x, y, h1, h2, hxy⟩
+    · simp only [seqAttrNode, h1, ← hl, h2]
+    · simp only [seqAttrNode, h1, ← hl, h2]
+      cases x with
+      | null => simp only [VPerm] at hxy; rw [hxy]
+      | bool _ => simp only [VPerm] at hxy; rw [hxy]
+      | num _ => simp only [VPerm] at hxy; rw [hxy]
+      | str _ => simp only [VPerm] at hxy; rw [hxy]
+      | list _ => simp only [VPerm] at hxy; obtain ⟨ys, rfl, _⟩ := hxy; rfl
+      | map _ => simp only [VPerm] at hxy; obtain ⟨_, _, rfl, _, _⟩ := hxy; rfl
+
+theorem seqAttrNodes_congr (c : SeqCfg) : ∀ {l' l : List (Str × Val)},
+    PW (fun _ v => keysOk v) l' l →
+    seqAttrNodes c l' = seqAttrNodes c l
+  | [], l, h => by simp only [PW] at h; subst h; rfl
+  | (k', v') :: r', l, h => by
+      simp only [PW] at h
+      obtain ⟨⟨k, v⟩, r, rfl, hk, hv, hg, hr⟩ := h
+      simp only at hk hv hg
+      subst hk
+      simp only [seqAttrNodes, seqAttrNode_congr c k' hv hg, seqAttrNodes_congr c hr]
+
+theorem seqKidsTree_congr (c : SeqCfg) (f : Nat)
+    (IH : ∀ key w v, VPerm w v → GoodAt c key v → seqEncTree c f key w = seqEncTree c f key v) :
+    ∀ {l' l : List (Str × Val)}, PW (GoodAt c) l' l → seqKidsTree c f l' = seqKidsTree c f l
+  | [], l, h => by simp only [PW] at h; subst h; rfl
+  | (k', v') :: r', l, h => by
+      simp only [PW] at h
+      obtain ⟨⟨k, v⟩, r, rfl, hk, hv, hg, hr⟩ := h
+      simp only at hk hv hg
+      subst hk
+      simp only [seqKidsTree, IH k' v' v hv hg, seqKidsTree_congr c f IH hr]
+
+theorem seqMembersTree_congr (c : SeqCfg) (f : Nat) (key : Str)
+    (IH : ∀ key w v, VPerm w v → GoodAt c key v → seqEncTree c f key w = seqEncTree c f key v) :
+    ∀ {xs ys : List Val}, LPerm xs ys → GoodLAt c key ys →
+      seqMembersTree c f key xs = seqMembersTree c f key ys
+  | [], ys, h, _ => by simp only [LPerm] at h; subst h; rfl
+  | x :: xs, ys, h, hg => by
+      simp only [LPerm] at h
+      obtain ⟨y, ys', rfl, hv, hr⟩ := h
+      simp only [GoodLAt] at hg
+      simp only [seqMembersTree, IH key x y hv hg.1, seqMembersTree_congr c f key IH hr hg.2]
+
+theorem encBody_congr (key : Str) (as : List Attr) (hv sq : Bool) (n : Nat) {ot' ot : Option Val}
+    (h : LookRel ot' ot) (ko : Outcome (List Node)) :
+    encBody key as hv sq n ot' ko = encBody key as hv sq n ot ko := by
+  rcases h with ⟨rfl, rfl⟩ | ⟨x, y, rfl, rfl, hxy⟩
+  · rfl
+  · simp only [encBody, vperm_fmtV hxy]
+
+theorem PW_mono {P Q : Str → Val → Prop} (hPQ : ∀ k v, P k v → Q k v) : ∀ {l' l : List (Str × Val)},
+    PW P l' l → PW Q l' l
+  | [], l, h => by simpa [PW] using h
+  | e' :: r', l, h => by
+      simp only [PW] at h ⊢
+      obtain ⟨e, r, rfl, hk, hv, hg, hr⟩ := h
+      exact ⟨e, r, rfl, hk, hv, hPQ _ _ hg, PW_mono hPQ hr⟩
+
+theorem attrsOutT_congr (c : SeqCfg) {a m : Entries} (he : EPerm a m)
+    (hattr : ∀ av, lookup c.attrK m = some (.map av) → GoodAttrs c av) :
+    attrsOutT c a = attrsOutT c m := by
+  unfold attrsOutT
+  rcases eperm_lookup c.attrK he with ⟨h1, h2⟩ | ⟨x, y, h1, h2, hxy⟩
+  · rw [h1, h2]
+  · rw [h1, h2]
+    cases x with
+    | null => simp only [VPerm] at hxy; rw [hxy]
+    | bool _ => simp only [VPerm] at hxy; rw [hxy]
+    | num _ => simp only [VPerm] at hxy; rw [hxy]
+    | str _ => simp only [VPerm] at hxy; rw [hxy]
+    | list _ => simp only [VPerm] at hxy; obtain ⟨ys, rfl, _⟩ := hxy; rfl
+    | map a' =>
+      simp only [VPerm] at hxy
+      obtain ⟨m', b', rfl, hp', he'⟩ := hxy
+      have hga := hattr b' h2
+      have hgm : ∀ e ∈ m', keysOk e.2 := fun e hm => hga.2.2 e (hp'.mem_iff.1 hm)
+      have h3 : seqAttrNodes c (sortBySeq c a') = seqAttrNodes c (sortBySeq c m') :=
+        seqAttrNodes_congr c (PW_sortBySeq c (fun _ v => keysOk v) (fun _ _ h => h)
+          (PW_of_EPerm (fun _ v => keysOk v) he' hgm))
+      have h4 : sortBySeq c m' = sortBySeq c b' := sortBySeq_congr c hp' hga.2.1
+      simp only [h3, h4]
+
+/-- all levels: the encoder's tree does not depend on the order of the entries of ANY map of
+    the value, if every map has distinct keys and its children / attributes distinct `#seq` -/
+theorem seqEncTree_vperm (c : SeqCfg) : ∀ (f : Nat) (key : Str) (w v : Val), VPerm w v →
+    GoodAt c key v → seqEncTree c f key w = seqEncTree c f key v := by
+  intro f
+  induction f with
+  | zero => intro key w v _ _; simp [seqEncTree]
+  | succ f ih =>
+    intro key w v hwv hg
+    cases w with
+    | null => simp only [VPerm] at hwv; rw [hwv]
+    | bool _ => simp only [VPerm] at hwv; rw [hwv]
+    | num _ => simp only [VPerm] at hwv; rw [hwv]
+    | str _ => simp only [VPerm] at hwv; rw [hwv]
+    | list xs =>
+      simp only [VPerm] at hwv
+      obtain ⟨ys, rfl, hl⟩ := hwv
+      simp only [GoodAt] at hg
+      simp only [seqEncTree]
+      exact seqMembersTree_congr c f key ih hl hg
+    | map a =>
+      simp only [VPerm] at hwv
+      obtain ⟨m, b, rfl, hp, he⟩ := hwv
+      simp only [GoodAt] at hg
+      obtain ⟨hk, hrest⟩ := hg
+      have hlk : ∀ k, strOf (lookup k a) = strOf (lookup k b) := by
+        intro k
+        rw [lookRel_strOf (eperm_lookup k he), lookup_perm hp hk]
+      by_cases h1 : key = c.commentK
+      · subst h1
+        simp only [seqEncTree, if_true, hlk]
+      by_cases h2 : key = c.directiveK
+      · subst h2
+        simp only [seqEncTree, h1, if_true, if_false, hlk]
+      by_cases h3 : key = c.procinstK
+      · subst h3
+        simp only [seqEncTree, h1, h2, if_true, if_false, hlk]
+      rcases hrest with hn | ⟨hs, hattr, hge⟩
+      · rcases hn with hn | hn | hn
+        · exact absurd hn h1
+        · exact absurd hn h2
+        · exact absurd hn h3
+      rw [← seqEncTree_perm c (f + 1) key hp hk hs]
+      have hgm : GoodE c m := by
+        rw [GoodE_iff] at hge ⊢
+        exact fun e hm => hge e (hp.mem_iff.1 hm)
+      have hattrm : ∀ av, lookup c.attrK m = some (.map av) → GoodAttrs c av := by
+        intro av h; exact hattr av (by rw [← lookup_perm hp hk]; exact h)
+      rw [seqEncTree_map_eq c f key a h1 h2 h3, seqEncTree_map_eq c f key m h1 h2 h3,
+        attrsOutT_congr c he hattrm, lookRel_isSome (eperm_lookup c.seqK he), eperm_length he,
+        seqKidsTree_congr c f ih
+          (PW_sortBySeq c (GoodAt c) (fun _ _ h => h.keysOk) (PW_unroll c he hgm))]
+      cases attrsOutT c m with
+      | ok p => exact encBody_congr key p.1 p.2 _ _ (eperm_lookup c.textK he) _
+      | eof => rfl
+      | «syntax» => rfl
+      | err _ => rfl
+      | panic _ => rfl
+
+/-! ### (14) decoded values are good at every level -/
+
+theorem nodup_of_distinctStrs : ∀ (l : List Str), distinctStrs l = true → l.Nodup
+  | [], _ => List.nodup_nil
+  | x :: xs, h => by
+      simp only [distinctStrs, Bool.and_eq_true, Bool.not_eq_true', List.contains_eq_mem,
+        decide_eq_false_iff_not] at h
+      exact List.nodup_cons.2 ⟨h.1, nodup_of_distinctStrs xs h.2⟩
+
+theorem attrEntries_keysOk (c : SeqCfg) (hts : c.textK ≠ c.seqK) : ∀ (attrs : List Attr) (i : Nat),
+    ∀ e ∈ attrEntries c i attrs, keysOk e.2
+  | [], _, e, h => by simp [attrEntries] at h
+  | a :: as, i, e, h => by
+      simp only [attrEntries, List.mem_cons] at h
+      rcases h with rfl | h
+      · simp [keysOk, keys, hts]
+      · exact attrEntries_keysOk c hts as (i + 1) e h
+
+theorem goodAttrs_attrEntries (c : SeqCfg) (hc : CfgOk c) (attrs : List Attr)
+    (hd : distinctStrs (attrQNames c attrs) = true) : GoodAttrs c (attrEntries c 0 attrs) := by
+  refine ⟨?_, ?_, attrEntries_keysOk c hc.ts attrs 0⟩
+  · rw [keys_attrEntries]; exact nodup_of_distinctStrs _ hd
+  · rw [attrEntries_seqs c hc]; exact List.nodup_range'
+
+theorem goodE_insert (c : SeqCfg) (k : Str) (v : Val) (hv : k = c.attrK ∨ GoodAt c k v) :
+    ∀ (l : Entries), GoodE c l → GoodE c (insert k v l)
+  | [], _ => by simp only [insert, GoodE]; exact ⟨hv, trivial⟩
+  | (k', v') :: rest, h => by
+      simp only [GoodE] at h
+      by_cases e : k = k'
+      · subst e
+        simp only [insert, if_true, GoodE]
+        exact ⟨hv, h.2⟩
+      · simp only [insert, e, if_false, GoodE]
+        exact ⟨h.1, goodE_insert c k v hv rest h.2⟩
+
+theorem goodLAt_append (c : SeqCfg) (k : Str) : ∀ (xs ys : List Val),
+    GoodLAt c k xs → GoodLAt c k ys → GoodLAt c k (xs ++ ys)
+  | [], ys, _, h => h
+  | x :: xs, ys, h1, h2 => by
+      simp only [GoodLAt] at h1
+      simp only [List.cons_append, GoodLAt]
+      exact ⟨h1.1, goodLAt_append c k xs ys h1.2 h2⟩
+
+theorem goodAt_promote (c : SeqCfg) (k : Str) (o : Option Val) (v : Val)
+    (ho : ∀ old, o = some old → GoodAt c k old) (hv : GoodAt c k v) :
+    GoodAt c k (promote o v) := by
+  cases o with
+  | none => exact hv
+  | some old =>
+    have h := ho old rfl
+    cases old with
+    | list xs =>
+      simp only [GoodAt] at h
+      simp only [promote, GoodAt]
+      exact goodLAt_append c k xs [v] h ⟨hv, trivial⟩
+    | null => simp only [promote, GoodAt, GoodLAt]; exact ⟨trivial, hv, trivial⟩
+    | bool _ => simp only [promote, GoodAt, GoodLAt]; exact ⟨trivial, hv, trivial⟩
+    | num _ => simp only [promote, GoodAt, GoodLAt]; exact ⟨trivial, hv, trivial⟩
+    | str _ => simp only [promote, GoodAt, GoodLAt]; exact ⟨trivial, hv, trivial⟩
+    | map _ => simp only [promote, GoodAt, GoodLAt]; exact ⟨h, hv, trivial⟩
+
+theorem goodE_addChild (c : SeqCfg) (na : Entries) (k : Str) (v : Val) (hk : k ≠ c.attrK)
+    (hv : GoodAt c k v) (hna : GoodE c na) : GoodE c (addChild na k v) := by
+  rw [addChild_eq]
+  refine goodE_insert c k _ (.inr (goodAt_promote c k _ v ?_ hv)) na hna
+  intro old ho
+  rcases (GoodE_iff c na).1 hna (k, old) (mem_of_lookup ho) with h | h
+  · exact absurd h hk
+  · exact h
+
+theorem goodE_addAll (c : SeqCfg) : ∀ (cs : List (Str × Val)) (na : Entries),
+    (∀ e ∈ cs, e.1 ≠ c.attrK ∧ GoodAt c e.1 e.2) → GoodE c na → GoodE c (addAll na cs)
+  | [], na, _, h => h
+  | e :: cs, na, he, h => by
+      rw [addAll_cons]
+      have h1 := he e (List.mem_cons_self ..)
+      exact goodE_addAll c cs _ (fun e' he' => he e' (List.mem_cons_of_mem _ he'))
+        (goodE_addChild c na e.1 e.2 h1.1 h1.2 h)
+
+theorem goodE_append (c : SeqCfg) : ∀ (X Y : Entries), GoodE c X → GoodE c Y → GoodE c (X ++ Y)
+  | [], Y, _, h => h
+  | (k, v) :: X, Y, h1, h2 => by
+      simp only [GoodE] at h1
+      simp only [List.cons_append, GoodE]
+      exact ⟨h1.1, goodE_append c X Y h1.2 h2⟩
+
+mutual
+theorem good_value (c : SeqCfg) (S : Strconv) (hc : CfgOk c) : ∀ (t : Node),
+    seqDomain c t = true → ∀ key,
+      GoodAt c key (SeqFold.value c S t) ∧ ∀ n, GoodAt c key (seqChild c n (SeqFold.value c S t))
+  | .elem sp name attrs kids, hd, key => by
+      have dp := seqDomain_parts hd
+      have hkeys := items_keys c S hc kids (if (leadText c kids).isSome then 1 else 0) dp.kids
+      have hit := good_items c S hc kids dp.kids (if (leadText c kids).isSome then 1 else 0)
+      have hk := decoded_keys_nodup c S hc sp name attrs kids hd
+      have hs := decoded_seqs_nodup c S hc sp name attrs kids hd
+      have hform := decodedEntries_form c S hc sp name attrs kids hd
+      have hGa : lookup c.attrK (addAll [] (itemsOf c S kids)) = none :=
+        lookup_addAll_none _ _ [] rfl (fun e he => (hkeys e he).2.2)
+      have hattr : ∀ av, lookup c.attrK (decodedEntries c S attrs kids) = some (.map av) →
+          GoodAttrs c av := by
+        intro av h
+        rw [hform, List.append_assoc, lookup_append_none _ _ _ (by
+          rw [lookup_append_left _ _ _ (by
+            cases leadText c kids <;> simp [textEntries, keys, hc.ta.symm, hc.sa.symm])]
+          exact hGa)] at h
+        cases attrs with
+        | nil => simp [lookup] at h
+        | cons a as =>
+          simp only [List.isEmpty_cons, Bool.false_eq_true, if_false, lookup, if_true,
+            Option.some.injEq, Val.map.injEq] at h
+          subst h
+          exact goodAttrs_attrEntries c hc _ dp.attrs
+      have hge : GoodE c (decodedEntries c S attrs kids) := by
+        rw [hform]
+        refine goodE_append c _ _ (goodE_append c _ _ ?_ ?_) ?_
+        · split
+          · trivial
+          · simp [GoodE]
+        · cases leadText c kids <;> simp [textEntries, GoodE, GoodAt, seqNum]
+        · exact goodE_addAll c _ [] (fun e he => ⟨(hkeys e he).2.2, hit e he⟩) trivial
+      rw [value_eq_finish]
+      by_cases he : (decodedEntries c S attrs kids).isEmpty = true
+      · simp only [SeqFold.finish, he, if_true, seqChild, GoodAt, true_and]
+        intro n
+        refine ⟨by simp [keys, hc.ts], .inr ⟨by simp [unrollEntries], ?_,
+          by simp [GoodE, GoodAt, seqNum]⟩⟩
+        intro av h
+        simp [lookup, hc.ta.symm, hc.sa.symm] at h
+      · have he' : (decodedEntries c S attrs kids).isEmpty = false := by simpa using he
+        simp only [SeqFold.finish, he', Bool.false_eq_true, if_false, seqChild, GoodAt]
+        refine ⟨⟨hk, .inr ⟨hs, hattr, hge⟩⟩, fun n => ⟨nodup_keys_insert _ _ _ hk, .inr ⟨?_, ?_, ?_⟩⟩⟩
+        · rw [unroll_insert_seq]; exact hs
+        · intro av h
+          rw [lookup_insert, if_neg hc.sa.symm] at h
+          exact hattr av h
+        · exact goodE_insert c _ _ (.inr (by simp [seqNum, GoodAt])) _ hge
+  | .text _, h, _ => by simp [seqDomain] at h
+  | .comment _, h, _ => by simp [seqDomain] at h
+  | .directive _, h, _ => by simp [seqDomain] at h
+  | .procinst _ _, h, _ => by simp [seqDomain] at h
+theorem good_items (c : SeqCfg) (S : Strconv) (hc : CfgOk c) : ∀ (kids : List Node),
+    seqDomainKids c kids = true → ∀ (seq : Nat), ∀ e ∈ items c S seq kids, GoodAt c e.1 e.2
+  | [], _, seq, e, h => by simp [items] at h
+  | .elem sp name attrs ks :: rest, hd, seq, e, h => by
+      simp only [seqDomainKids, Bool.and_eq_true] at hd
+      simp only [items, List.mem_cons] at h
+      rcases h with rfl | h
+      · exact (good_value c S hc (.elem sp name attrs ks) hd.1 _).2 seq
+      · exact good_items c S hc rest hd.2 _ e h
+  | .text _ :: rest, hd, seq, e, h => by
+      simp only [seqDomainKids] at hd
+      simp only [items] at h; exact good_items c S hc rest hd _ e h
+  | .comment _ :: rest, hd, seq, e, h => by
+      simp only [seqDomainKids] at hd
+      simp only [items, List.mem_cons] at h
+      rcases h with rfl | h
+      · simp [noteVal, GoodAt, keys, hc.ts, isNoteKey]
+      · exact good_items c S hc rest hd _ e h
+  | .directive _ :: rest, hd, seq, e, h => by
+      simp only [seqDomainKids] at hd
+      simp only [items, List.mem_cons] at h
+      rcases h with rfl | h
+      · simp [noteVal, GoodAt, keys, hc.ts, isNoteKey]
+      · exact good_items c S hc rest hd _ e h
+  | .procinst _ _ :: rest, hd, seq, e, h => by
+      simp only [seqDomainKids] at hd
+      simp only [items, List.mem_cons] at h
+      rcases h with rfl | h
+      · simp [piVal, GoodAt, keys, hc.ti, hc.st.symm, hc.si.symm, isNoteKey]
+      · exact good_items c S hc rest hd _ e h
+end
+
+/-- one level is a special case -/
+theorem VPerm.of_perm {m b : Entries} (h : m.Perm b) : VPerm (.map m) (.map b) := by
+  simp only [VPerm]
+  exact ⟨m, b, rfl, h, EPerm.refl m⟩
 
 end SeqL
 end Mxj
